@@ -111,7 +111,7 @@ def correspondence(chk, binary, n):
     selffails = [l for l in lines if l.startswith("SELF-FAIL")]
     summ = re.search(r"CORR cases=(\d+) self=(\d+) selffail=(\d+) classes=(\S*)", out)
     if not summ or not cases:
-        chk.oblige("correspondence:gjInverse", "correspondence", False, out[-500:])
+        chk.oblige("correspondence:gjInverse: harness ran", "correspondence", False, out[-500:])
         chk.fail("correspondence:gjInverse", "corr:run", "correspondence harness did not run", {"output": out[-2000:]}, False)
         return
     ins = "\n".join(l.split(" => ")[0] for l in cases) + "\n"
@@ -135,7 +135,7 @@ def correspondence(chk, binary, n):
         if body != exp.strip():
             mism.append((cls, inp, exp.strip(), body))
     ok = not mism and rc2 == 0
-    chk.oblige("correspondence: Matrix33/44<double,float>::gjInverse(), gjInverse(true) == Lean model at Float/Float32, bit for bit (%d cases)" % len(cases),
+    chk.oblige("correspondence:gjInverse: Matrix33/44<double,float>::gjInverse(), gjInverse(true) == Lean model at Float/Float32, bit for bit (%d cases)" % len(cases),
                "correspondence", ok, None if ok else [m[0] for m in mism[:5]])
     chk.count(len(cases), sum(1 for l in cases if "exc=ok" in l))
     seen = set()
@@ -153,12 +153,12 @@ def correspondence(chk, binary, n):
     ex = {k: v for k, v in perclass.items() if k.startswith("ex-")}
     exn, exq = sum(v["cases"] for v in ex.values()), sum(v["exact_in_Rat"] for v in ex.values())
     okx = exn > 0 and exq >= 0.9 * exn and all(v["exact_in_Rat"] > 0 for v in ex.values())
-    chk.oblige("correspondence: on dyadic matrices with power-of-two pivots the real result equals the model evaluated over Rat (%d of %d)" % (exq, exn),
+    chk.oblige("correspondence:exact: on dyadic matrices with power-of-two pivots the real result equals the model evaluated over Rat (%d of %d)" % (exq, exn),
                "correspondence", okx, None if okx else ex)
     if not okx:
         chk.fail("correspondence:exact", "corr:exact-classes", "real gjInverse differs from exact rational arithmetic on dyadic matrices", ex, False)
     oks = int(summ.group(3)) == 0 and not selffails
-    chk.oblige("in-place forms: gjInvert()/gjInvert(true)/invert() leave what gjInverse()/inverse() return; gjInverse(true) value = gjInverse(); "
+    chk.oblige("correspondence:spellings: in-place forms: gjInvert()/gjInvert(true)/invert() leave what gjInverse()/inverse() return; gjInverse(true) value = gjInverse(); "
                "M44.inverse() non-affine = gjInverse()  (%s in-process checks)" % summ.group(2), "correspondence", oks, selffails[:3] or None)
     chk.count(int(summ.group(2)), int(summ.group(2)))
     for l in selffails[:5]:
@@ -192,24 +192,36 @@ def residue(chk, binary, n):
     for l in out.split("\n"):
         if l.startswith("RESIDUE-FAIL "):
             fails.setdefault(l.split()[1], []).append(l)
+    # obligation names start with the key of the failures that can break them (lib.finish ties them by prefix)
     for name, p in sorted(paths.items()):
         if name.startswith("lattice:"):
-            text = "residue: integer lattice, %s: every entry produced by one division is the correctly rounded adj/det (%d matrices)" % (name[8:], p["judged"])
+            text = "residue:%s: integer lattice, every entry produced by one division is the correctly rounded adj/det (%d matrices)" % (name, p["judged"])
         elif name.startswith("affine-jump:"):
-            text = "residue: %s of an affine matrix vs the same with one last-column entry moved by one ulp agree to %g*cond*eps*|X| (%d pairs)" % (name[12:], 2 * CBOUND, p["judged"])
+            text = "residue:%s: inverse of an affine matrix vs the same with one last-column entry moved by one ulp agree to %g*cond*eps*|X| (%d pairs)" % (name, 2 * CBOUND, p["judged"])
         else:
-            text = "residue: %s error <= %g*cond*eps*|X| up to cond 1/eps, finite below 1/eps^2 (%d judged)" % (name, CBOUND, p["judged"])
+            text = "residue:accuracy:%s: error <= %g*cond*eps*|X| up to cond 1/eps, finite below 1/eps^2 (%d judged)" % (name, CBOUND, p["judged"])
         chk.oblige(text, "residue", p["fails"] == 0 and p["nonfinite"] == 0 and p["cases"] > 0,
                    None if p["fails"] == 0 else {"failures": p["fails"], "worst": {k: v for k, v in p.items() if k.startswith("worst")}})
     for key, ls in fails.items():
         l = ls[0]                        # the fixed (unseeded) witnesses are judged first: canonical replay per key
         f = dict(re.findall(r"(\w[\w/()*|'-]*)=(\S+)", l))
         dec = re.search(r" dec=(\S+)", l)
-        cof = any(key.endswith(p) for p in COFACTOR_PATHS) or key == "residue:affine-jump:M44.inverse"
-        chk.fail(key, key,
-                 ("measured accuracy outside the property's bound c*cond*eps*|X| (c=%g) on path %s%s: %s" % (
-                     CBOUND, key.split(":", 2)[2] if key.count(":") >= 2 else key,
-                     " — cofactor (adjugate/det) arms lose eps*|M|^3/|det| ~ cond^2*eps when two singular values are small" if cof else "", l[14:220])),
+        kind = key.split(":")[1] if key.count(":") >= 1 else key
+        path = key.split(":", 2)[2] if key.count(":") >= 2 else key
+        if kind == "accuracy":
+            what = "measured error of %s exceeds the property's bound %g*cond*eps*|X|" % (path, CBOUND)
+            if path in COFACTOR_PATHS:
+                what += " (cofactor arm: adjugate/det loses eps*|M|^3/|det| ~ cond^2*eps when two singular values are small)"
+        elif kind == "affine-jump":
+            what = "%s jumps by more than %g*cond*eps*|X| when one last-column entry of an affine matrix moves by one ulp (fast path vs general path)" % (path, 2 * CBOUND)
+        elif kind == "nonfinite":
+            what = "%s returns inf/nan for a matrix with cond < 1/eps^2" % path
+        elif kind == "lattice":
+            what = ("%s on a small-integer matrix: an entry that is ONE division of exact quantities is not the correctly rounded adj/det "
+                    "(or a singular integer matrix did not give the identity)" % path)
+        else:
+            what = "residue failure " + key
+        chk.fail(key.replace("residue:nonfinite:", "residue:accuracy:"), key, what + ": " + l[14 + len(key):260],
                  {"line": l[:1500], "matrix_row_major_decimal": dec.group(1).split(",") if dec else None,
                   "element_type": "double" if " d " in l[:120] else "float", "ratio_and_cond": {k: v for k, v in f.items() if k in ("cond", "bound", "class")},
                   "replay_cmd": ".build/bin/c06_inv residue %d %d %g | grep '%s'" % (chk.seed, n, CBOUND, key)}, True)
